@@ -15,6 +15,10 @@ def builtin_probe(ctx):
         p = l.split()
         if len(p) >= 2:
             vals[p[0]] = p[1:]
+    if 'hang' in vals:
+        ctx.violation({'probe': 'builtin', 'hang': True}, 'a real delivery with every built-in action registered and completely full self-pipes did not return within 15 s (%s)' % ' '.join(vals['hang']),
+                      {'probe_output': out, 'replay': 'harness/target/debug/p_c03 8'})
+        return
     if rc != 0 or 'ops' not in vals:
         ctx.correspondence('built-in actions probe ran', False, out[-800:])
         return
